@@ -104,9 +104,9 @@ def main(tier, replay=None):
         "distinct_nontrivial": len(st["distinct"]),
         "rule": "one evaluation = one history on the real wallet: instance 1 (original wallet, 1-6 standard/staking addresses issued over time, optionally a second wallet) lives through 10-29 random steps "
                 "(blocks with 0-3 random transactions, coinbase/standard/staking/binding outputs, in-block spend chains, reorgs of depth 1-4, re-mined transactions; long cases add 1010-1159 empty blocks so that the rescan needs "
-                "two or more batches); instance 2 (fresh directory, same node, optionally one wallet of its own) restores the twin from the mnemonic or from the exported keystore JSON; between the batches the node extends "
+                "two or more batches); instance 2 (fresh directory, same node, optionally one wallet of its own) restores the twin from the mnemonic or from the exported keystore JSON; in short cases a block paying the twin is delivered around the start of the import — with the handler kept INSIDE processConnectedBlock of that block (commit done, tip copy not yet updated) while the task starts, or queued right after the task was pushed; between the batches the node extends "
                 "its chain or reorganises (near the tip, or 100-159 deep below the cursor) and the announcement is queued; listing/UseWallet while importing; queries against model and chain spec; 2-6 further steps; "
-                "finally instance 1 is reopened, caught up to the same tip, and report / staking+binding rows / used addresses of twin and original are compared. Plus the directed scenario of C07_import_abandoned_refuted. "
+                "finally instance 1 is reopened, caught up to the same tip, and report / staking+binding rows / used addresses of twin and original are compared. Plus directed scenarios: C07_import_abandoned_refuted's witness, and the single-batch import started while the handler is mid-block. "
                 "distinct_nontrivial = distinct reports with at least one listed coin. " + stats,
         "queries": st["nq"], "quiescent_queries_checked_against_spec": st["nquiet"], "announcements": st["nproc"],
         "import_steps": st["nsteps"], "batches_that_did_not_finish_the_import": multi, "twin_vs_original_comparisons_equal": twins,
